@@ -26,7 +26,10 @@
 //! registry.invalidate_by_tag("user_data");
 //! ```
 
+#[cfg(not(feature = "verif"))]
 use parking_lot::RwLock;
+#[cfg(feature = "verif")]
+use crate::verif_sync::RwLock;
 use std::collections::{HashMap, HashSet};
 use std::sync::Arc;
 
@@ -399,6 +402,22 @@ impl InvalidationRegistry {
         self.cache_metadata.write().clear();
         self.clear_callbacks.write().clear();
         self.invalidation_check_callbacks.write().clear();
+    }
+}
+
+#[cfg(feature = "verif")]
+impl InvalidationRegistry {
+    /// addresses of the registry's locks, for the lock observer (feature "verif" only)
+    pub fn verif_lock_ids(&self) -> Vec<(&'static str, usize)> {
+        use crate::verif_sync::rwlock_id;
+        vec![
+            ("RG_TAG", rwlock_id(&self.tag_to_caches)),
+            ("RG_EVENT", rwlock_id(&self.event_to_caches)),
+            ("RG_DEP", rwlock_id(&self.dependency_to_caches)),
+            ("RG_META", rwlock_id(&self.cache_metadata)),
+            ("RG_CLEAR", rwlock_id(&self.clear_callbacks)),
+            ("RG_CHECK", rwlock_id(&self.invalidation_check_callbacks)),
+        ]
     }
 }
 
